@@ -2,7 +2,7 @@
 machines."""
 
 from collections import deque
-from itertools import chain
+from itertools import chain, count
 from typing import AbstractSet, Any, Generator, Mapping, Optional, Sequence, Tuple
 
 import automata.base.exceptions as exceptions
@@ -347,8 +347,17 @@ class MNTM(ntm.NTM):
 
         """
         tapes = self._get_tapes_for_input_str(input_str)
-        head_symbol = "^"
-        tape_separator_symbol = "_"
+        # The two markers of the extended tape must not occur on any tape
+        used_symbols = set(self.tape_symbols) | set(input_str)
+        spare_symbols = (
+            symbol
+            for symbol in map(chr, count(33))
+            if symbol not in used_symbols and symbol not in "^_"
+        )
+        head_symbol = "^" if "^" not in used_symbols else next(spare_symbols)
+        tape_separator_symbol = (
+            "_" if "_" not in used_symbols else next(spare_symbols)
+        )
 
         # Make string from all tapes
         initial_tape = "".join(
